@@ -8,6 +8,7 @@ import numpy as np
 import shapely
 
 from harness import util
+from harness.gen import c06_extra as X
 from harness.gen import datasets as G
 from harness.gen import geomspec as S
 
@@ -19,6 +20,11 @@ REQUIRED = [
     'Ems.C06.cf2d_polygon_at', 'Ems.C06.arakawa_polygon_at', 'Ems.C06.ugrid_polygon_at',
     'Ems.C06.missing_no_polygon', 'Ems.C06.storedCorners_spec', 'Ems.C06.ugrid_bad_node', 'Ems.C06.midBounds_length', 'Ems.C06.mask_iff', 'Ems.C06.invalid_dropped', 'Ems.C06.warned_iff',
     'Ems.C06.bbox_spec', 'Ems.C06.cf1d_box_is_union', 'Ems.C06.cf1d_cell_is_polygon',
+    'Ems.C06.cellsCover_iff', 'Ems.C06.cellsCover_polygon', 'Ems.C06.cf1d_box_cover',
+    # the numpy pipelines as the source has them (Gen/Pipelines.lean, translated by harness/pipelines.py on every run)
+    'Ems.C06.pipelines_translated', 'Ems.C06.pipeline_eval_get',
+    'Ems.C06.cf1d_pipeline_spec', 'Ems.C06.cf2d_pipeline_spec', 'Ems.C06.arakawa_pipeline_spec',
+    'Ems.C06.cf1d_midbounds_pipeline_spec', 'Ems.C06.cf1d_asserts_hold', 'Ems.C06.cf1d_centres_pipeline_spec',
 ]
 RULE = ('datasets of every convention from the recipe generator: CF 1-D axes ascending / descending / non-uniform, '
         'with stored bounds (contiguous or gapped, the four axis directions in turn) and without, coordinates and bounds as xarray '
@@ -27,9 +33,39 @@ RULE = ('datasets of every convention from the recipe generator: CF 1-D axes asc
         'lattices with masked nodes; UGRID meshes mixing 3..8-gons, concave and collinear, 0/1-based, NaN / _FillValue / '
         'no fill, transposed, node coordinates as variables or coordinates. Compared: exact vertex lists of every '
         'polygon, mask, InvalidPolygonWarning, bounds; exact ring validity vs GEOS on every raw cell; geometry vs '
-        'GEOS union of polygons; for CF 1-D grids the decision box-of-the-bounds / union-of-cells of the overall geometry. Non-trivial: dataset with a hole, an invalid cell, derived bounds, a non-quad face, '
-        'or a non-default storage of coordinates; distinct by recipe.')
-TRUSTED = ['GEOS is_valid / unary_union / equals; numpy nanmean, pad, stack, reshape']
+        'GEOS union of polygons; for CF 1-D grids the decision box-of-the-bounds / union-of-cells of the overall geometry. '
+        'Cells that do not tile their domain edge to edge: CF 1-D stored bounds that overlap the neighbouring cells, CF 2-D / SHOC simple '
+        'stored corners pushed outwards into the neighbours, UGRID meshes with hanging nodes (a node in the middle of an edge listed by one '
+        'of the two faces only); the overall geometry has to be a valid geometry equal to the GEOS union of the ground-truth polygons, and '
+        'for every CF 1-D grid its point set is compared with the model on a lattice of probe points (every bound value, the middle of every '
+        'stretch between two bound values, one value beyond either end: `cf1dcover`). '
+        'Storage types: the two axes of a CF 1-D grid (coordinate and stored bounds) are stored as int16/32/64, float32 or float64, walked '
+        'round-robin over 9 (longitude, latitude) pairs, either axis the narrower one; an integer axis is stretched so that its stored bounds '
+        'are whole numbers while the other axis keeps half / quarter bounds, a float64 axis next to a float32 one carries an offset of 5/2^30 '
+        'that float32 cannot hold: a value is only ever stored in a type that holds it exactly, so the cell the dataset describes does not '
+        'depend on the storage types. '
+        'Non-trivial: dataset with a hole, an invalid cell, derived bounds, a non-quad face, overlapping cells, mixed storage types, '
+        'or a non-default storage of coordinates; distinct by recipe. '
+        'Pipelines: the source text of CFGrid1D._make_polygons, CFGrid2D._make_polygons, ArakawaC._make_polygons, the derived-bounds '
+        'branch of CFGrid1DTopology._get_or_make_bounds and CFGrid1D.face_centres is translated on every run into terms of a numpy '
+        'expression language (harness/pipelines.py -> Gen/Pipelines.lean); for every CF 1-D, CF 2-D / SHOC simple with stored bounds and '
+        'SHOC standard dataset generated, the generated term is evaluated in the driver on the generator\'s ground-truth bounds / node '
+        'arrays (`pipe` operations) and compared with ds.ems.polygons (vertex lists, mask, bounds, warning), topology.*_bounds and '
+        'face_centres of the running code.')
+TRUSTED = ['GEOS is_valid / unary_union / equals; numpy nanmean, pad (derived 2-D bounds)',
+           'numpy stack / expand_dims / broadcast_to / transpose / basic indexing / reshape / concatenate follow the positional C-order '
+           'semantics given to them in Core/NpExpr.lean (cross-checked by the `pipe` operations on every generated dataset)',
+           'the source translator harness/pipelines.py (Python ast -> NpExpr): part of the trusted base; what it cannot render becomes '
+           'NpExpr.unsupported and breaks Ems.C06.pipelines_translated; its output is validated against the running code on every run']
+LEVEL_NOTE = ('GEOS is_valid enters as a truth table (and is compared with an exact ring-validity test); unary_union / equals are GEOS on '
+              'both sides of the geometry oracle; bounds are compared where every stored bound / node belongs to a kept polygon. '
+              'The *_pipeline_spec theorems are about terms regenerated from the source text on every run, for all grid sizes: the '
+              'stack / broadcast_to / transpose / reshape pipelines refine the comprehension models the other theorems are about. '
+              'Not translated (still hand-modelled + correspondence only): the derived-bounds branch of CFGrid2DTopology (nanmean / pad) '
+              'and UGrid._make_polygons. '
+              'Trusted: Lean kernel (axioms propext, Quot.sound, Classical.choice), the hand-written model and the semantics of the numpy '
+              'expression language, the harness (generators, canonicalisers, driver parser, the source translator harness/pipelines.py), '
+              'numpy/xarray/shapely behaviour taken as parameters.')
 ASSUMPTIONS = ['coordinates are small integers / dyadic rationals so every float operation on the code path is exact',
                'bounds_eq_bbox is checked where every stored bound / node belongs to a kept polygon (no invalid cell, no orphan node)']
 
@@ -41,8 +77,11 @@ def make_recipe(ctx, k: int) -> dict:
     if conv == 'cf1d':
         kw['coords_as'] = rng.choice(['coords', 'coords', 'vars'])
         kw['bounds_as'] = rng.choice(['vars', 'vars', 'coords'])
-        if rng.random() < 0.4:
+        c = rng.random()
+        if c < 0.3:
             kw['bounds'] = 'gaps'
+        elif c < 0.55:
+            kw['bounds'] = 'overlap'     # stored bounds wider than the axis spacing: neighbouring cells overlap
     elif conv in ('cf2d', 'shoc_simple'):
         kw['coords_as'] = rng.choice(['coords', 'coords', 'vars'])
         kw['bounds_as'] = rng.choice(['vars', 'vars', 'coords'])
@@ -57,6 +96,15 @@ def make_recipe(ctx, k: int) -> dict:
         u = k // len(G.CONVS)
         recipe['lat'] = sorted(recipe['lat'], reverse=u % 2 == 1)
         recipe['lon'] = sorted(recipe['lon'], reverse=(u // 2) % 2 == 1)
+        # the storage types of the two axes (integer / float32 / float64, either way round), round-robin
+        X.storage_types(rng, recipe, u)
+    elif conv in ('cf2d', 'shoc_simple'):
+        if recipe.get('bounds') == 'stored' and rng.random() < 0.3:
+            recipe['grow'] = True        # stored corners reach into the neighbouring cells
+    elif conv == 'ugrid':
+        if rng.random() < 0.4:
+            # hanging nodes: two faces share part of an edge without matching node for node
+            X.add_hanging_nodes(rng, recipe, rng.choice([1, 1, 2]))
     return recipe
 
 
@@ -88,27 +136,30 @@ def examine(ctx, recipe: dict, items: list) -> None:
         err = f'{type(e).__name__}: {e}'
     line = f"polys {S.polys_args(built)} valid={vbits}" + ('' if with_bounds else ' nob=1')
     items.append((line, impl, {'recipe': recipe, 'op': line}))
+    # ---- the pipelines translated from the source, run on the same ground truth (Core/NpProto.lean) ----
+    if conv in ('cf1d', 'shoc_standard') or (conv in ('cf2d', 'shoc_simple') and built.extra.get('corners') is not None):
+        pl = 'pipe ' + line[len('polys '):]
+        items.append((pl, impl, {'recipe': recipe, 'op': pl}))
+        ctx.count(f'pipeline:{pl.split()[1]}')
+    if conv == 'cf1d' and c is not None:
+        pipeline_extras(ctx, recipe, built, c, items)
     nontrivial = (any(q is None for q in raw) or any_invalid or recipe.get('bounds') == 'none'
                   or conv == 'ugrid' or recipe.get('coords_as') == 'vars' or recipe.get('bounds_as') == 'coords'
-                  or recipe.get('enc', {}).get('coords_as') == 'coords')
+                  or recipe.get('enc', {}).get('coords_as') == 'coords' or recipe.get('grow')
+                  or recipe.get('bounds') == 'overlap' or 'lon_dtype' in recipe)
     if nontrivial:
         ctx.nontrivial(recipe)
     ctx.count(f'conv:{conv}')
+    if recipe.get('hanging'):
+        ctx.count('ugrid-hanging-node')
+    if recipe.get('grow') or recipe.get('bounds') == 'overlap':
+        ctx.count('overlapping-cells')
+    if conv == 'cf1d':
+        a, b = (str(built.ds[built.extra['names'][k]].dtype) for k in ('lon', 'lat'))
+        if a != b:
+            ctx.count(f'cf1d-axis-types:{a}/{b}' + ('+fine' if any(isinstance(v, float) for v in recipe['lon'] + recipe['lat']) else ''))
     if conv == 'cf1d' and c is not None:
-        # the overall geometry of an axis-aligned grid: the box of its bounds, or (gaps) the union of the cells.
-        # Observed topologically; the generator's bounds are either gap-free or leave true gaps.
-        gl = 'cf1dgeom ' + S.polys_args(built)[len('cf1d '):]
-        try:
-            geom = c.geometry
-            bb = tuple(float(v) for v in geom.bounds)
-            if geom.equals(shapely.box(*bb)):
-                gout = 'box ' + ','.join(S.num(Fraction(v)) for v in bb)
-            else:
-                gout = 'union'
-        except Exception:
-            gout = 'ERR'
-        items.append((gl, gout, {'recipe': recipe, 'op': gl}))
-        ctx.count(f'cf1d-geometry:{gout.split()[0]}')
+        geometry_items(ctx, recipe, built, c, items)
     if any_invalid:
         ctx.count('has-invalid-cell')
     if any(q is None for q in raw):
@@ -137,6 +188,14 @@ def examine(ctx, recipe: dict, items: list) -> None:
         ctx.oracle_fail(sig, desc, f'building polygons raised {err}')
         return
     polys = c.polygons
+    # (naming the failure only) stored bounds held as coordinates that were not used: the topology answers with midpoints
+    bounds_ignored = False
+    if conv == 'cf1d' and recipe.get('bounds') in ('gaps', 'overlap') and recipe.get('bounds_as') == 'coords':
+        try:
+            seen = [tuple(Fraction(float(v)) for v in row) for row in np.asarray(c.topology.longitude_bounds.values)]
+            bounds_ignored = seen == [tuple(ab) for ab in G._mid_bounds(recipe['lon'])]
+        except Exception:
+            pass
     if len(polys) != len(raw):
         ctx.oracle_fail('polygon-count', desc, f'{len(polys)} polygons for {len(raw)} cells')
         return
@@ -153,7 +212,7 @@ def examine(ctx, recipe: dict, items: list) -> None:
             got = S.impl_ring(p)
             if got != util.expected_ring(q):
                 sig = 'polygon-differs'
-                if conv == 'cf1d' and recipe.get('bounds') != 'none' and recipe.get('bounds_as') == 'coords':
+                if bounds_ignored:
                     sig = 'cf1d-bounds-as-coordinates-ignored'
                 ctx.oracle_fail(sig, {**desc, 'cell': n}, f'cell {n}: polygon {S.ring_str(got)} expected {S.ring_str(q)}')
                 break
@@ -172,23 +231,96 @@ def examine(ctx, recipe: dict, items: list) -> None:
             got = f'ERR {e}'
         if got != exp:
             sig = 'bounds-differ'
-            if conv == 'cf1d' and recipe.get('bounds') != 'none' and recipe.get('bounds_as') == 'coords':
+            if bounds_ignored:
                 sig = 'cf1d-bounds-as-coordinates-ignored'
             ctx.oracle_fail(sig, desc, f'bounds {got} expected {exp}')
     if good and all(p is None or k is not None for p, k in zip(polys, kept)):
+        # the overall geometry is a valid geometry and, as a point set, the union of the polygons of the cells the
+        # dataset describes (ground truth of the generator; GEOS on both sides of `equals`)
+        why = ''
+        valid, boxed = True, False
         try:
             geom = c.geometry
             union = shapely.unary_union(good)
-            same = bool(geom.equals(union))
+            valid = bool(shapely.is_valid(geom))
+            if not valid:
+                why = f': not a valid geometry ({shapely.is_valid_reason(geom)})'
+            same = valid and bool(geom.equals(union))
+            boxed = valid and bool(geom.equals(shapely.box(*geom.bounds)))
+            if valid and not same:
+                why = f': area {geom.area!r}, the union has area {union.area!r}'
         except Exception as e:
             same = False
+            why = f': {type(e).__name__}: {e}'
         if not same:
             sig = 'geometry-differs'
-            if conv == 'cf1d' and recipe.get('bounds') == 'gaps':
+            if not valid:
+                sig = 'geometry-invalid'
+            elif conv == 'cf1d' and recipe.get('bounds') == 'gaps' and boxed:
                 sig = 'cf1d-geometry-box-with-gapped-bounds'
-            elif conv == 'cf1d' and recipe.get('bounds') != 'none' and recipe.get('bounds_as') == 'coords':
+            elif bounds_ignored:
                 sig = 'cf1d-bounds-as-coordinates-ignored'
-            ctx.oracle_fail(sig, desc, 'geometry is not the union of the cell polygons')
+            ctx.oracle_fail(sig, desc, 'geometry is not the union of the cell polygons' + why)
+
+
+def geometry_items(ctx, recipe: dict, built, c, items: list) -> None:
+    """CF 1-D: the overall geometry of the running code vs the model of CFGrid1D.geometry"""
+    args = S.polys_args(built)[len('cf1d '):]
+    try:
+        geom = c.geometry
+    except Exception:
+        geom = None
+    if recipe.get('bounds') != 'overlap':
+        # the box of its bounds, or (gaps) the union of the cells.  Observed topologically: these bounds are either
+        # gap-free or leave true gaps (with overlapping bounds the two answers are the same point set: not observable)
+        gl = 'cf1dgeom ' + args
+        try:
+            bb = tuple(float(v) for v in geom.bounds)
+            if geom.equals(shapely.box(*bb)):
+                gout = 'box ' + ','.join(S.num(Fraction(v)) for v in bb)
+            else:
+                gout = 'union'
+        except Exception:
+            gout = 'ERR'
+        items.append((gl, gout, {'recipe': recipe, 'op': gl}))
+        ctx.count(f'cf1d-geometry:{gout.split()[0]}')
+    # the point set of the geometry on a lattice of probe points: every bound value, the middle of every stretch
+    # between two bound values (inside a cell, a gap, an overlap), one value beyond either end
+    xs, ys = X.probe_values(built.extra['lonb']), X.probe_values(built.extra['latb'])
+    cl = f'cf1dcover {args} xs={S.nums(xs)} ys={S.nums(ys)}'
+    try:
+        px = np.array([float(x) for _ in ys for x in xs])
+        py = np.array([float(y) for y in ys for _ in xs])
+        cout = ''.join('1' if b else '0' for b in shapely.covers(geom, shapely.points(px, py)))
+    except Exception:
+        cout = 'ERR'
+    items.append((cl, cout, {'recipe': recipe, 'op': cl}))
+    ctx.count('cf1d-cover:' + recipe.get('bounds', 'none'))
+
+
+def pipeline_extras(ctx, recipe: dict, built, c, items: list) -> None:
+    """CF 1-D: derived bounds and face centres of the running code vs the pipelines translated from the source"""
+    def pairs(arr) -> str:
+        a = np.asarray(arr)
+        if a.ndim != 2 or a.shape[1] != 2:
+            return f'SHAPE{tuple(a.shape)}'
+        return ','.join(f'{S.num(Fraction(float(lo)))}:{S.num(Fraction(float(hi)))}' for lo, hi in a)
+    if recipe.get('bounds', 'none') == 'none':
+        for axis, key in (('longitude_bounds', 'lon'), ('latitude_bounds', 'lat')):
+            ml = f'pipe mid vals={S.nums(recipe[key])}'
+            try:
+                mout = pairs(getattr(c.topology, axis).values)
+            except Exception:
+                mout = 'ERR'
+            items.append((ml, mout, {'recipe': recipe, 'op': ml}))
+        ctx.count('pipeline:mid')
+    cl = f"pipe centres lon={S.nums(recipe['lon'])} lat={S.nums(recipe['lat'])}"
+    try:
+        fc = np.asarray(c.face_centres)
+        cout = ';'.join(f'{S.num(Fraction(float(x)))},{S.num(Fraction(float(y)))}' for x, y in fc)
+    except Exception:
+        cout = 'ERR'
+    items.append((cl, cout, {'recipe': recipe, 'op': cl}))
 
 
 def run(ctx) -> None:
